@@ -383,6 +383,15 @@ func runC03(c *runCfg) error {
 			raw = append(raw, mSync()...)
 			cs = flatCase(i, "surplus", cfg, raw, nil)
 		}
+		if i%10 == 7 {
+			// a declared length at the edges of the 32-bit range (above every limit): exactly that many bytes belong to
+			// the message — here: everything the client still sends — and none of them is ever interpreted
+			cfg := cs.cfg
+			dl := []uint32{0x7fffffff, 0x80000000, 0x80000003, 0xfffffffb, 0xffffffff}[(i/10)%5]
+			smuggled := cat(mSync(), mQuery(g.queryName(&cfg)), mParse(nil, g.queryName(&cfg), 0), mSync())
+			raw := cat(stdStartup, mQuery(g.queryName(&cfg)), msgLen(byte("QPBEz"[(i/50)%5]), dl, smuggled), mSync(), mQuery(g.queryName(&cfg)))
+			cs = flatCase(i, "huge_length", cfg, raw, nil)
+		}
 		if i%5 == 1 && !cs.cfg.tls {
 			// negotiation prefix: an SSLRequest answered 'N', then the same stream
 			cs = flatCase(i, "ssl_n_seg", cs.cfg, cat(sslRequest(), cs.raw), nil)
